@@ -39,6 +39,8 @@ qvars == <<q, env, it>>
 
 StreamBytes(n, w) == (n * w + 7) \div 8
 Cap == IF Variant = "fill_cap" THEN FillCap ELSE QInf
+\* the cost fields are history; QueueCostSpec follows them, here they would only multiply states
+QNoCost(x) == [x EXCEPT !.work = 0, !.moved = 0]
 
 Init == \E w \in Widths : \E n \in 0..MaxN :
           /\ env = [n |-> n, decl |-> n, rem |-> QTup(LAMBDA i : StreamBytes(n, w[i]), 1, Len(w)), other |-> MaxOther]
@@ -76,7 +78,7 @@ It_Call == /\ Driver = "iterator" /\ it.mode = "idle"
 MayFill == it.mode = "fill" /\ QAvail(q) < 1 /\ (Variant = "single_advance" => it.fills = 0)
 It_Fill == /\ MayFill
            /\ \E pkt \in NextPackets :
-                /\ q' = QAdvance(q, pkt, Cap)
+                /\ q' = QNoCost(QAdvance(q, pkt, Cap))
                 /\ env' = EnvAfter(pkt)
            /\ it' = [it EXCEPT !.fills = @ + 1]
 \* nothing is left of the section but the reader wants more: it reads whatever follows as a packet
@@ -91,7 +93,7 @@ It_FailSingle == /\ Variant = "single_advance" /\ it.mode = "fill" /\ it.fills =
 
 \* ---- direct use of the queue reader ------------------------------------------------------
 D_Advance == /\ Driver = "direct" /\ it.mode = "idle"
-             /\ \E pkt \in NextPackets : q' = QAdvance(q, pkt, Cap) /\ env' = EnvAfter(pkt)
+             /\ \E pkt \in NextPackets : q' = QNoCost(QAdvance(q, pkt, Cap)) /\ env' = EnvAfter(pkt)
              /\ UNCHANGED it
 D_Pop == /\ Driver = "direct" /\ it.mode = "idle" /\ QAvail(q) >= 1
          /\ q' = QPop(q) /\ it' = [it EXCEPT !.read = @ + 1] /\ UNCHANGED env
